@@ -71,25 +71,31 @@ Definition arith (op : string) (x y : pval) : option pval :=
 Definition num_q (v : pval) : option Q :=
   match v with PInt a => Some (inject_Z a) | PFloat n m => Some (q_of_float n m) | _ => None end.
 
+(* for the order comparisons a boolean counts as 0 / 1, in Python (bool is an int) and in numpy.less alike;
+   == and != are defined between two numbers or two booleans (the DSL's _type_safe_equal rejects bool with int) *)
+Definition ord_q (v : pval) : option Q :=
+  match v with PBool b => Some (if b then 1%Q else 0%Q) | _ => num_q v end.
+
 Definition cmp (op : string) (x y : pval) : option bool :=
-  match x, y with
-  | PBool a, PBool b =>
-      if op ==s "==" then Some (Bool.eqb a b)
-      else if (op ==s "!=") || (op ==s "<>") then Some (negb (Bool.eqb a b))
-      else None
-  | _, _ =>
-      match num_q x, num_q y with
-      | Some a, Some b =>
-          if op ==s "==" then Some (Qeq_bool a b)
-          else if (op ==s "!=") || (op ==s "<>") then Some (negb (Qeq_bool a b))
-          else if op ==s "<" then Some (negb (Qle_bool b a))
-          else if op ==s "<=" then Some (Qle_bool a b)
-          else if op ==s ">" then Some (negb (Qle_bool a b))
-          else if op ==s ">=" then Some (Qle_bool b a)
-          else None
-      | _, _ => None
-      end
-  end.
+  if (op ==s "==") || (op ==s "!=") || (op ==s "<>") then
+    match x, y with
+    | PBool a, PBool b => Some (if op ==s "==" then Bool.eqb a b else negb (Bool.eqb a b))
+    | _, _ =>
+        match num_q x, num_q y with
+        | Some a, Some b => Some (if op ==s "==" then Qeq_bool a b else negb (Qeq_bool a b))
+        | _, _ => None
+        end
+    end
+  else
+    match ord_q x, ord_q y with
+    | Some a, Some b =>
+        if op ==s "<" then Some (negb (Qle_bool b a))
+        else if op ==s "<=" then Some (Qle_bool a b)
+        else if op ==s ">" then Some (negb (Qle_bool a b))
+        else if op ==s ">=" then Some (Qle_bool b a)
+        else None
+    | _, _ => None
+    end.
 
 Definition neg_num (v : pval) : option pval :=
   match v with PInt a => Some (PInt (- a)) | PFloat n m => Some (PFloat (negb n) m) | _ => None end.
@@ -112,8 +118,14 @@ Fixpoint fold_bool (f : bool -> bool -> bool) (acc : option bool) (vs : list pva
 Definition fsem_t := string -> list pval -> option pval.
 
 (* ------------------------------------------------------------------ DSL: evaluation of an expression object *)
+(* the operator names with a scalar meaning here; every other name is an uninterpreted function *)
+Definition builtin_ops : list string :=
+  ["+"; "*"; "-"; "/"; "//"; "%"; "**"; "=="; "!="; "<>"; "<"; "<="; ">"; ">="; "and"; "or"].
+Definition is_builtin_op (op : string) : bool := mem_str op builtin_ops.
+
 Definition eval_op (fsem : fsem_t) (op : string) (vs : list pval) : option pval :=
-  if (op ==s "+") || (op ==s "*") then                         (* _k_add, _k_mul *)
+  if negb (is_builtin_op op) then fsem op vs
+  else if (op ==s "+") || (op ==s "*") then                    (* _k_add, _k_mul *)
     match vs with v :: t => fold_arith op (Some v) t | [] => None end
   else if op ==s "-" then                                       (* _negate_or_subtract *)
     match vs with [v] => neg_num v | [a; b] => arith "-" a b | _ => None end
@@ -125,7 +137,7 @@ Definition eval_op (fsem : fsem_t) (op : string) (vs : list pval) : option pval 
     match vs with v :: t => option_map PBool (fold_bool andb (as_bool v) t) | [] => None end
   else if op ==s "or" then
     match vs with v :: t => option_map PBool (fold_bool orb (as_bool v) t) | [] => None end
-  else fsem op vs.
+  else None.
 
 Fixpoint eval (fsem : fsem_t) (en : env) (e : expr) {struct e} : option pval :=
   match e with
@@ -225,11 +237,14 @@ Definition py_node (fsem : fsem_t) (d : string) (cs : list ltree) (vs : list (op
             if cd ==s "getattr" then
               match ccs, gvs with
               | [_; LTok (TName m)], Some [Some self; _] =>
-                  if plain_method m (List.length avals) then fsem m (self :: avals) else None
+                  if plain_method m (List.length avals) && negb (is_builtin_op m) then fsem m (self :: avals) else None
               | _, _ => None
               end
             else if cd ==s "var" then
-              match ccs with [LTok (TName f)] => fsem f avals | _ => None end
+              match ccs with
+              | [LTok (TName f)] => if is_builtin_op f then None else fsem f avals
+              | _ => None
+              end
             else None
         | _, _ => None
         end
